@@ -75,14 +75,13 @@ def run(sid, props, tier):
         rc, out = sh("git apply %s" % os.path.join(d, "patch.diff"), cwd=wt)
         assert rc == 0, out
         for p in props:
-            rc, out = sh("VERIF_REPO=%s ./check %s --tier %s" % (wt, p, tier), cwd=ROOT, timeout=7200)
+            rc, out = sh("VERIF_REPO=%s VERIF_WORK=%s ./check %s --tier %s" % (wt, os.path.join(ROOT, ".work", "mut_" + sid), p, tier), cwd=ROOT, timeout=7200)
             results[p] = {"rc": rc, "lines": [l for l in out.split("\n") if l.startswith(("VIOLATION", "KNOWN", "UNDECIDED", p))][:12]}
             print(sid, p, "rc=%d" % rc)
             for l in results[p]["lines"]:
                 print("   ", l[:300])
     finally:
         sh("git -C %s worktree remove --force %s" % (REPO, wt))
-        sh("git checkout -- evidence 2>/dev/null", cwd=ROOT)
     meta.setdefault("check_results", {}).update({"%s/%s" % (p, tier): r for p, r in results.items()})
     json.dump(meta, open(os.path.join(d, "meta.json"), "w"), indent=1)
     return 0
